@@ -183,3 +183,56 @@ static int cmd_kernel_par(const Args& a) {
     return 0;
 }
 static Reg r_kernel_par("kernel_par", cmd_kernel_par);
+
+// kernel_seq: (i) the kernel called again and again on the SAME vec3 objects while some of them move between calls (as the contact phase does
+// with the positions of a face's nodes from one iteration to the next; a pinned corner stays where it is): every result is judged against the
+// oracle, so anything remembered from an earlier call shows; (ii) exact translations: scenes whose coordinates lie on a 2^-10 grid (triangle frame, sizes of order 1) are shifted
+// by 2^30 and 2^40 along every axis - every coordinate difference stays exact, so the barycentric coordinates must not change at
+// all (the squared distance may, by the rounding of the closest point at the far position).
+static int cmd_kernel_seq(const Args& a) {
+    Agg agg;
+    for (long i = a.first; i < a.first + a.cases; i++) {
+        if (!a.mine(i)) continue;
+        Rng g(a.seed, (uint64_t)i, 0x56); Case c(i);
+        // ---- (i) persistent objects
+        Scene s = make_scene(g); s.offset_over_L = 0;
+        vec3 P = tv(s.p), A = tv(s.a), B = tv(s.b), Cc = tv(s.c); long calls = 0; const int steps = g.range(20, 60);
+        const double h = (double)std::max({(s.a - s.b).norm(), (s.b - s.c).norm(), (s.c - s.a).norm()});
+        for (int k = 0; k < steps && c.v != "viol"; k++) {
+            const int pin = g.range(0, 3);   // which corner (or none) stays where it is in this step
+            auto mv = [&](vec3& x) { x.reset(x.dx() + h * g.uni(-0.02, 0.02), x.dy() + h * g.uni(-0.02, 0.02), x.dz() + h * g.uni(-0.02, 0.02)); };
+            if (pin != 0 && g.coin(0.8)) mv(A); if (pin != 1 && g.coin(0.8)) mv(B); if (pin != 2 && g.coin(0.8)) mv(Cc); if (g.coin(0.7)) mv(P);
+            V3 p = fv(P), aa = fv(A), bb = fv(B), cc = fv(Cc);
+            R area2 = (bb - aa).cross(cc - aa).norm(), diam = std::max({(aa - bb).norm(), (bb - cc).norm(), (cc - aa).norm()}); if (!(area2 > 1e-4L * diam * diam)) break;
+            auto r = contact_model_abstract::compute_node_triangle_distance(P, A, B, Cc); calls++;
+            V3 qs; R d2s = orc::closest_on_triangle(p, aa, bb, cc, qs, nullptr); V3 bary = fv(r.second); V3 q = aa * bary.x + bb * bary.y + cc * bary.z;
+            R Dq = std::max({(p - aa).norm(), (p - bb).norm(), (p - cc).norm(), diam}); R cond = (Dq / diam) * (Dq / diam) * (diam * diam / area2) * (diam * diam / area2);
+            R L = diam + (p - (aa + bb + cc) / 3).norm(); R tolq = std::max(1e-9L * L, 256 * 2.220446e-16L * cond * diam);
+            if (!((q - qs).norm() <= tolq)) c.viol("sequence:closest_point", "called again on the same objects after " + std::to_string(k + 1) + " moves (corner " + std::to_string(pin) + " pinned in the last one) the kernel designates a point " + std::to_string((double)((q - qs).norm() / diam)) + " triangle sizes away from the closest point");
+            else if (!(std::fabs((R)r.first - d2s) <= 1e-9L * std::max(d2s, L * L))) c.viol("sequence:d2", "called again on the same objects the kernel returns a wrong squared distance");
+        }
+        agg.bin("sequence_calls", calls);
+        // ---- (ii) exact translations
+        long shifted = 0;
+        if (c.v != "viol") {
+            Scene t = make_scene(g); const double grid = std::ldexp(1.0, -10); const double sc = t.scale;
+            auto qz = [&](const V3& x) { return V3(std::round((double)x.x / sc / grid) * grid, std::round((double)x.y / sc / grid) * grid, std::round((double)x.z / sc / grid) * grid); };
+            V3 ctr = (t.a + t.b + t.c) / 3; V3 p0 = qz(t.p - ctr), a0 = qz(t.a - ctr), b0 = qz(t.b - ctr), c0 = qz(t.c - ctr);
+            R area2 = (b0 - a0).cross(c0 - a0).norm(), diam = std::max({(a0 - b0).norm(), (b0 - c0).norm(), (c0 - a0).norm()});
+            if (area2 > 1e-4L * diam * diam && p0.norm() < 4096 && diam > 64 * grid) {
+                auto r0 = contact_model_abstract::compute_node_triangle_distance(tv(p0), tv(a0), tv(b0), tv(c0));
+                for (int e : {30, 40}) { const double T = std::ldexp(1.0, e); V3 sh(T * (g.coin() ? 1 : -1), T * (g.coin() ? 1 : -1), T * (g.coin() ? 1 : -1));
+                    auto r1 = contact_model_abstract::compute_node_triangle_distance(tv(p0 + sh), tv(a0 + sh), tv(b0 + sh), tv(c0 + sh)); shifted++;
+                    V3 d = fv(r1.second) - fv(r0.second); R dev = std::max({std::fabs(d.x), std::fabs(d.y), std::fabs(d.z)});
+                    agg.maxi("exact_translation_bary_dev", (double)dev);
+                    if (!(dev <= 1e-12L)) { c.viol("exact_translation:barycentric_coordinates_2^" + std::to_string(e), "an exact translation of point and triangle by 2^" + std::to_string(e) + " triangle-frame units changes the barycentric coordinates by " + std::to_string((double)dev)); break; } }
+            }
+        }
+        agg.bin("exact_translations", shifted);
+        c.nontrivial = calls > 0; c.sig = hash_combine((uint64_t)i, (uint64_t)calls * 131 + (uint64_t)shifted);
+        agg.add(c);
+    }
+    agg.flush(a.shard_i);
+    return 0;
+}
+static Reg r_kernel_seq("kernel_seq", cmd_kernel_seq);
